@@ -108,6 +108,15 @@ def cases():
         {"sims": [{"sid": "Sa", "type": "time-based", "reuse": True, "api": "2.2"}, {"sid": "Sb", "type": "time-based", "reuse": True}],
          "transport": "local", "conns": [{"src": "Sa", "dst": "Sb", "sa": "p", "da": "i", "shift": 1, "init": True}], "until": 4},
         _tb(["Sa", "Sb"]))
+    # a destination that PULLS a persistent input (cache on) and also gets a time-shifted event connection with (unneeded,
+    # but declared) initial data; the event is produced once: what the destination remembers must not depend on the cache
+    add("event_with_init_and_pulled_input", ["C04"],
+        {"sims": [{"sid": "Sa", "type": "time-based"}, {"sid": "Sb", "type": "hybrid"}, {"sid": "Sc", "type": "hybrid"}],
+         "conns": [{"src": "Sa", "dst": "Sb", "sa": "p", "da": "i"},
+                   {"src": "Sc", "dst": "Sb", "sa": "e", "da": "ti", "shift": 1, "init": True},
+                   {"src": "Sb", "dst": "Sc", "sa": "p", "da": "i"}], "until": 5},
+        [["Sc", "get_data", 1, {"E0": {"e": "ev1"}}], ["Sc", "get_data", 2, {"E0": {}}], ["Sc", "get_data", 3, {"E0": {}}],
+         ["Sc", "get_data", 4, {"E0": {}}], ["Sc", "get_data", 5, {"E0": {}}]] + _tb(["Sa", "Sb", "Sc"], 7))
     # D9: time-based simulator returning no next step
     add("tb_returns_none", ["C13"],
         {"sims": [{"sid": "Sa", "type": "time-based"}, {"sid": "Sb", "type": "time-based"}],
